@@ -175,16 +175,26 @@ def check(case):
                           f"look {math.degrees(look)!r} deg, zero distance {Dz!r} ft, stored zero {math.degrees(spec['zero'])!r} deg: {raised}")
                     return r
             # second recorded finding: the finder is a fixed-point iteration that assumes d(height)/d(elevation) =
-            # distance / cos^2(look); for strongly curved (slow, high-drag) trajectories the true sensitivity is much
-            # smaller, the iteration contracts only by q = |1 - true/assumed| per step and runs out of iterations
-            if isinstance(raised, pb.ZeroFindingError) and break_sens is not None and raised.iterations_count >= n_it:
-                q = abs(1 - break_sens / (Rh / math.cos(look) ** 2))
-                e0 = abs(base - aim_y)
-                if q >= 0.3 and e0 * q ** n_it > acc / 100 and raised.zero_finding_error <= e0 * q ** (n_it / 2):
-                    r.bad("C02:fails-on-reachable-target:fixed-point-iteration-too-slow",
-                          f"look {math.degrees(look)!r} deg, zero distance {Dz!r} ft: {raised} (contraction per iteration ~{q:.2f}, "
-                          f"initial error {e0!r} ft, {n_it} iterations)")
-                    return r
+            # distance / cos^2(look); for strongly curved (slow, high-drag, steep) trajectories the true sensitivity differs
+            # by tens of percent, the error contracts only by a factor q per iteration (monotonically or alternating) and
+            # the iteration runs out of iterations.  Predicate: continuing the iteration from where it stopped, three
+            # consecutive errors shrink by a steady factor 0.25 <= q <= 0.9.
+            if isinstance(raised, pb.ZeroFindingError) and raised.iterations_count >= n_it:
+                e_it = raised.last_barrel_elevation.raw_value
+                errs = []
+                for _ in range(3):
+                    y_it = _height_at(c3, spec, e_it, Rh)
+                    if y_it is None:
+                        break
+                    errs.append(y_it - aim_y)
+                    e_it -= errs[-1] / Rh * math.cos(look) ** 2
+                if len(errs) == 3 and errs[0] != 0 and errs[1] != 0:
+                    q1, q2 = abs(errs[1] / errs[0]), abs(errs[2] / errs[1])
+                    if 0.25 <= q1 <= 0.9 and 0.25 <= q2 <= 0.9 and abs(q1 - q2) <= 0.15:
+                        r.bad("C02:fails-on-reachable-target:fixed-point-iteration-too-slow",
+                              f"look {math.degrees(look)!r} deg, zero distance {Dz!r} ft: {raised} (errors of the next iterates {errs}: "
+                              f"contraction ~{q1:.2f} per iteration, {n_it} iterations)")
+                        return r
             # third recorded finding: the solver switches wind at the first integration point at or beyond a boundary, so
             # the height at the zero distance is a sawtooth function of the elevation (it jumps whenever an integration
             # point crosses the boundary; the jump is the first-order wind-switch jitter of C01).  If the root falls
